@@ -28,6 +28,11 @@ func init() {
 			Run: func(P *Program, R *Report) { keyshareResponsesRule(P, R) }},
 		Rule{ID: "C14.e", Explain: "NewKeyshareCommitments: the randomiser has LmCommit(2048) bits unless some key has a 1024-bit modulus, then LmCommit(1024) bits and the secret must have at most Lm(1024)-1 bits; one commitment R0^randomizer mod N (and P = R0^secret) per key.",
 			Run: func(P *Program, R *Report) { keyshareCommitmentsRule(P, R) }},
+		Rule{ID: "C14.g", Explain: "joint proofs complete: the keyshare functions (KeyshareResponse, the user-side request builders, NewKeyshareCommitments) and the verification call tree refuse only for the specified reasons.",
+			Run: func(P *Program, R *Report) {
+				treeRejectionsRule(P, R, "C14.g", "keyshare", "the keyshare call tree")
+				treeRejectionsRule(P, R, "C14.g", "show", "the verification call tree")
+			}},
 		Rule{ID: "C14.f", Explain: "BuildDistributedProofList: a ProofP list of the wrong length is an error; every builder's proof is created with the given challenge and merged with its ProofP when one is present.",
 			Run: func(P *Program, R *Report) { buildDistributedRule(P, R) }},
 	)
